@@ -126,6 +126,7 @@ class Term:
     variant: str              # Rust enum variant name
     payload: Optional[str] = None   # e.g. "u8": pattern Tok::V(<u8>)
     cfgs: list = field(default_factory=list)
+    bare: bool = False        # declared as a bare identifier (`Num => Tok::Num`) and referenced as Nt("Num")
 
 
 @dataclass
@@ -198,7 +199,7 @@ def to_lalrpop(g: Grammar, force_lalr=None):
         pat = "Tok::%s" % t.variant
         if t.payload:
             pat += "(<%s>)" % t.payload
-        out.append('        %s => %s,' % (sym_text(Tm(t.name)), pat))
+        out.append('        %s => %s,' % (t.name if t.bare else sym_text(Tm(t.name)), pat))
     out.append("    }")
     out.append("}")
     for n in g.nts:
@@ -407,6 +408,7 @@ def to_cfg(g: Grammar, feats=frozenset(), error_as_terminal=True):
     if len(defs) != len(tiered):
         raise SpecReject("duplicate nonterminal")
     termset = {t.name for t in terms}
+    bareset = {t.name for t in terms if t.bare}
     prods = {}
     names = {}       # canonical key -> fresh name
     uses_error = [False]
@@ -427,6 +429,8 @@ def to_cfg(g: Grammar, feats=frozenset(), error_as_terminal=True):
             uses_error[0] = True
             return C.T(ERROR_TERM)
         if isinstance(s, Nt):
+            if s.name not in defs and s.name in bareset:
+                return C.T(s.name)       # a bare terminal (macro parameters were substituted before: they shadow it)
             if s.name not in defs:
                 raise SpecReject("unknown nonterminal %s" % s.name)
             d = defs[s.name]
